@@ -123,6 +123,238 @@ static void producer(void)
 		}
 }
 
+/* ---- checksum arithmetic boundaries: every position of a payload whose running Adler-32 halves pass through
+ * 0, 1, 65519, 65520 is used as the boundary of an update (output split for the verifier, input split + flush for the
+ * producer), so that every internal representation of the running sum (A, A-1, deferred modulo) is seen at a call boundary. */
+static uint8_t BD[9000];
+static size_t BDN;
+static void bd_build(void)
+{
+	uint32_t a = 1, b = 0;
+	size_t n = 0;
+	static const struct { int half; uint32_t target; } tg[] = { { 0, 0 }, { 0, 1 }, { 0, 65520 }, { 0, 65519 }, { 1, 0 }, { 1, 65520 }, { 1, 1 }, { 0, 0 } };
+	int hits[2][4] = { { 0 } };
+	for (unsigned t = 0; t < sizeof tg / sizeof tg[0]; t++) {
+		uint8_t filler = (uint8_t)(0xff - t);
+		for (;;) {
+			uint32_t need = tg[t].half == 0 ? (tg[t].target + 65521 - a) % 65521 : (tg[t].target + 2 * 65521 - b - a) % 65521;
+			uint8_t d = need < 256 ? (uint8_t)need : filler;
+			if (n >= sizeof BD - 64)
+				v_broken("boundary payload: target %u not reached", t);
+			BD[n++] = d;
+			a = (a + d) % 65521;
+			b = (b + a) % 65521;
+			if (need < 256)
+				break;
+		}
+		if ((tg[t].half == 0 ? a : b) != tg[t].target)
+			v_broken("boundary payload construction");
+	}
+	for (int i = 0; i < 40; i++)
+		BD[n++] = (uint8_t)('a' + i % 7);
+	BDN = n;
+	/* confirm with the reference which prefixes sit on a boundary value */
+	for (size_t k = 1; k <= n; k++) {
+		uint32_t ad = ri_adler32(1, BD, k);
+		static const uint32_t bv[4] = { 0, 1, 65519, 65520 };
+		for (int h = 0; h < 2; h++)
+			for (int v = 0; v < 4; v++)
+				if ((h ? ad >> 16 : ad & 0xffff) == bv[v])
+					hits[h][v]++;
+	}
+	for (int v = 0; v < 4; v++)
+		if (!hits[0][v] || (v != 2 && !hits[1][v]))
+			v_broken("boundary payload: no prefix with %s == boundary value #%d", "A/B", v);
+	if (v_shard == 0) {
+		v_max("boundary_payload_bytes", (long)n);
+		v_max("boundary_prefixes_A_eq_0", hits[0][0]);
+		v_max("boundary_prefixes_A_eq_65520", hits[0][3]);
+		v_max("boundary_prefixes_B_eq_0", hits[1][0]);
+		v_max("boundary_prefixes_B_eq_65520", hits[1][3]);
+	}
+}
+
+static void boundary(void)
+{
+	bd_build();
+	size_t n = BDN;
+	static const int cpus[] = { CPU_BASE, CPU_SSE, CPU_AVX2 };
+	static const int vmodes[] = { ISAL_ZLIB, ISAL_ZLIB_NO_HDR_VER, ISAL_GZIP, ISAL_GZIP_NO_HDR_VER };
+	char key[300], why[256];
+	/* two encodings of the payload: stored blocks (reference generator) and zlib level 6 */
+	static uint8_t body[2][12000], strm[12000];
+	size_t blen[2], ebit[2];
+	struct bw w;
+	bw_init(&w, body[0], sizeof body[0]);
+	gen_stored(&w, 1, BD, n, 0);
+	blen[0] = bw_bytes(&w);
+	ebit[0] = w.bit;
+	{
+		z_stream z;
+		memset(&z, 0, sizeof z);
+		if (deflateInit2(&z, 6, Z_DEFLATED, -15, 8, Z_DEFAULT_STRATEGY) != Z_OK)
+			v_broken("zlib init");
+		z.next_in = BD; z.avail_in = n; z.next_out = body[1]; z.avail_out = sizeof body[1];
+		if (deflate(&z, Z_FINISH) != Z_STREAM_END)
+			v_broken("zlib deflate");
+		blen[1] = z.total_out;
+		ebit[1] = 8 * blen[1];
+		deflateEnd(&z);
+	}
+	for (size_t k = 0; k <= n; k++) {
+		if (!v_mine(unit++))
+			continue;
+		if (nfail > 40 || v_deadline_hit())
+			return;
+		/* verifier: output space ends exactly after k bytes, then the rest */
+		for (int e = 0; e < 2; e++)
+			for (int mi = 0; mi < 4; mi++)
+				for (int ci = 0; ci < 3; ci++) {
+					size_t te, wl = wrap_stream(vmodes[mi], body[e], blen[e], ebit[e], BD, n, NULL, strm, &te);
+					cpu_set_level(cpus[ci]);
+					uint8_t *in = g_alloc(wl, G_END);
+					memcpy(in, strm, wl);
+					uint8_t *out = g_alloc(n, G_END);
+					struct inflate_state *st = g_alloc(sizeof *st, G_END);
+					int ret = -999, fault = 0, calls = 0;
+					if (V_TRY()) {
+						isal_inflate_init(st);
+						st->crc_flag = vmodes[mi];
+						st->next_in = in; st->avail_in = wl;
+						st->next_out = out; st->avail_out = k;
+						do {
+							ret = isal_inflate(st);
+							if (st->avail_out == 0 && st->next_out < out + n)
+								st->avail_out = out + n - st->next_out;
+						} while (ret == ISAL_DECOMP_OK && st->block_state != ISAL_BLOCK_FINISH && ++calls < 8);
+						V_END();
+					} else
+						fault = 1;
+					v_eval();
+					int gz = vmodes[mi] == ISAL_GZIP || vmodes[mi] == ISAL_GZIP_NO_HDR_VER;
+					uint32_t want = gz ? ri_crc32(0, BD, n) : ri_adler32(1, BD, n);
+					snprintf(key, sizeof key, "boundary verifier enc=%s mode=%s cpu=%s out-split@%zu (adler prefix %08x)", e ? "zlib6" : "stored", cf_name[vmodes[mi]], cpu_level_name[cpus[ci]], k, ri_adler32(1, BD, k));
+					if (fault) {
+						v_violation(key, "fault %s", v_fault_desc());
+						nfail++;
+					} else if (ret != ISAL_DECOMP_OK || st->block_state != ISAL_BLOCK_FINISH) {
+						v_violation(key, "a valid stream with a correct trailer was not accepted: return %d block_state %d", ret, st->block_state);
+						nfail++;
+					} else if ((size_t)(st->next_out - out) != n || memcmp(out, BD, n)) {
+						v_violation(key, "output differs");
+						nfail++;
+					} else if (st->crc != want) {
+						v_violation(key, "state.crc %08x but the reference checksum of the delivered bytes is %08x", st->crc, want);
+						nfail++;
+					}
+					v_count("boundary_verifier_runs", 1);
+					v_nontrivial(v_mix(k * 64 + e * 16 + mi * 4 + ci, 0xb0));
+					g_reset();
+				}
+		/* producer: input split after k bytes, with each flush kind on the first piece */
+		static const int gzs[] = { IGZIP_ZLIB, IGZIP_ZLIB_NO_HDR, IGZIP_GZIP };
+		for (int level = 0; level <= 3; level++)
+			for (int gi = 0; gi < 3; gi++)
+				for (int fl = 0; fl < 3; fl++)
+					for (int ci = 0; ci < 3; ci++) {
+						if (gi == 2 && (fl || ci))
+							continue;
+						cpu_set_level(cpus[ci]);
+						struct isal_zstream *s = g_alloc(sizeof *s, G_END);
+						uint32_t lbs = level ? lb_size(level, LB_MIN) : 0;
+						uint8_t *lb = level ? g_alloc(lbs, G_END) : NULL;
+						uint8_t *in1 = g_alloc(k, G_END), *in2 = g_alloc(n - k, G_END);
+						memcpy(in1, BD, k);
+						memcpy(in2, BD + k, n - k);
+						size_t cap = 2 * n + 4096;
+						int r = -999, fault = 0;
+						if (V_TRY()) {
+							isal_deflate_init(s);
+							s->level = level; s->level_buf = lb; s->level_buf_size = lbs;
+							s->gzip_flag = gzs[gi];
+							s->flush = fl;
+							s->next_out = OUT; s->avail_out = cap;
+							s->next_in = in1; s->avail_in = k; s->end_of_stream = 0;
+							r = isal_deflate(s);
+							if (r == COMP_OK && s->avail_in == 0) {
+								s->flush = NO_FLUSH;
+								s->next_in = in2; s->avail_in = n - k; s->end_of_stream = 1;
+								r = isal_deflate(s);
+							} else if (r == COMP_OK)
+								r = -998;
+							V_END();
+						} else
+							fault = 1;
+						v_eval();
+						snprintf(key, sizeof key, "boundary producer level=%d wrapper=%s first-piece-flush=%s cpu=%s in-split@%zu (adler prefix %08x)", level, gz_name[gzs[gi]], flush_name[fl], cpu_level_name[cpus[ci]], k, ri_adler32(1, BD, k));
+						size_t outlen = cap - s->avail_out;
+						if (fault) {
+							v_violation(key, "fault %s", v_fault_desc());
+							nfail++;
+						} else if (r != COMP_OK || s->internal_state.state != ZSTATE_END) {
+							v_violation(key, "compress failed: %d state %d", r, s->internal_state.state);
+							nfail++;
+						} else if (!verify_deflate_output(OUT, outlen, gzs[gi], BD, n, 0, 0, NULL, 0, why, sizeof why)) {
+							v_violation(key, "trailer/stream rejected by the reference: %s", why);
+							nfail++;
+						} else {
+							uint32_t want = gzs[gi] == IGZIP_GZIP ? ri_crc32(0, BD, n) : ri_adler32(1, BD, n);
+							if (vs_res.trailer_sum != want) {
+								v_violation(key, "stored checksum %08x != reference %08x", vs_res.trailer_sum, want);
+								nfail++;
+							}
+						}
+						v_count("boundary_producer_runs", 1);
+						g_reset();
+					}
+	}
+	/* one-shot whole payloads that end on each boundary value (prefixes of the payload), all producer APIs */
+	for (size_t k = 1; k <= n; k++) {
+		uint32_t ad = ri_adler32(1, BD, k), A = ad & 0xffff, B = ad >> 16;
+		if (!(A <= 1 || A >= 65519 || B <= 1 || B >= 65519))
+			continue;
+		if (!v_mine(unit++))
+			continue;
+		for (int level = 0; level <= 3; level++)
+			for (int api = 0; api < 2; api++)
+				for (int ci = 0; ci < 3; ci++) {
+					cpu_set_level(cpus[ci]);
+					struct cparams p = { level, NO_FLUSH, IGZIP_ZLIB, 0, 0, LB_MIN, api ? API_ONECALL : API_STATELESS, 4096, 4096 };
+					size_t outlen;
+					struct isal_zstream *s;
+					memcpy(IN, BD, k);
+					int r = c_deflate(&p, IN, k, OUT, 2 * k + 4096, &outlen, &s);
+					v_eval();
+					snprintf(key, sizeof key, "boundary producer whole %s cpu=%s payload=prefix(%zu) adler=%08x", cparams_str(&p), cpu_level_name[cpus[ci]], k, ad);
+					if (r != COMP_OK) {
+						v_violation(key, "compress failed: %d", r);
+						nfail++;
+					} else if (!verify_deflate_output(OUT, outlen, IGZIP_ZLIB, BD, k, 0, 0, NULL, 0, why, sizeof why)) {
+						v_violation(key, "trailer/stream rejected by the reference: %s", why);
+						nfail++;
+					} else if (vs_res.trailer_sum != ad) {
+						v_violation(key, "stored checksum %08x != reference %08x", vs_res.trailer_sum, ad);
+						nfail++;
+					} else {
+						/* and the verifier on that stream, stateless and streaming */
+						for (int dapi = 0; dapi < 2; dapi++) {
+							uint8_t *in = g_alloc(outlen, G_END);
+							memcpy(in, OUT, outlen);
+							uint8_t *out = g_alloc(k, G_END);
+							struct dres d;
+							c_inflate(dapi, ISAL_ZLIB, 0, in, outlen, out, k, &d, NULL);
+							if (d.fault || d.ret != ISAL_DECOMP_OK || d.block_state != ISAL_BLOCK_FINISH || d.crc != ad) {
+								v_violation(key, "verifier (%s): ret %d block_state %d state.crc %08x", dapi ? "isal_inflate" : "stateless", d.ret, d.block_state, d.crc);
+								nfail++;
+							}
+						}
+					}
+					v_count("boundary_whole_payload_runs", 1);
+					g_reset();
+				}
+	}
+}
+
 /* ISIZE wrap-around: 2^32 + 5 input bytes through the streaming API (thorough) */
 static void isize_wrap(void)
 {
@@ -211,12 +443,15 @@ int main(int argc, char **argv)
 	}
 	if (!v_part || !strcmp(v_part, "producer"))
 		producer();
+	if (!v_part || !strcmp(v_part, "boundary"))
+		boundary();
 	if (v_thorough && (!v_part || !strcmp(v_part, "isize")) && v_shard == 0)
 		isize_wrap();
 	if (v_shard == 0) {
 		v_sample("seed{stored(11)} mode=GZIP bitflip@26.3(trailer) driver=split@25: must not complete; reference says incorrect-checksum");
 		v_sample("producer level=2 wrapper=zlib_no_hdr api=deflate-chunked(1-byte input) input=text:8193: stored Adler-32 == reference Adler-32 of the input, stream accepted");
 		v_note("benign flips (MTIME/XFL/OS/name bytes without FHCRC) are accepted by both the reference and the codec and count as valid candidates");
+		v_note("boundary part: a payload built so that its running Adler-32 halves A and B pass through 0, 1, 65519 and 65520; EVERY position of it is used as an output split (verifier) and as an input split with each flush kind (producer), on the base/sse/avx2 adler kernels");
 		v_note("after every completion state.crc must equal the reference CRC-32/Adler-32 of the delivered bytes");
 	}
 	return v_finish();
